@@ -153,6 +153,24 @@ def run(ctx):
                                 else:
                                     add("c08_total %s %s %s %s" % (cQ(TOLQ), cQ(Fraction(T)), cql(comps(xi)), cql(comps(yi))), key % "model",
                                         "%s(%g): an output item is not (positive factor) x input with total power T c/(c+1e-8)" % (cname, T), rep)
+        # batches whose members differ by several decades in amplitude: every member still gets the target power, by its own factor
+        for shape in ((4, 16), (4, 2, 8)):
+            for cplx in (False, True):
+                T = rng.choice([0.5, 20.0])
+                x = signal("gaussian", shape, cplx, "f32", gen)
+                rowscale = torch.tensor([1e4, 1.0, 1e-1, 1e-2]).reshape((4,) + (1,) * (len(shape) - 1))
+                x = x * rowscale
+                y = mk(T)(x)
+                ctx.count("power-cases")
+                ctx.nontriv((cname, "heterogeneous", shape, cplx))
+                for it, (xi, yi) in enumerate(zip(items(x), items(y))):
+                    cin = pw(xi) / (xi.numel() if per_sample else 1)
+                    cout = pw(yi) / (yi.numel() if per_sample else 1)
+                    num = complex((yi.to(torch.complex128) * xi.to(torch.complex128).conj()).sum())
+                    if cout > T * (1 + 3e-5) or (cin >= 1e-5 and cout < T * (1 - 1e-3 - 3e-5)) or (cin >= 1e-5 and not (num.real > 0 and abs(num.imag) <= 1e-5 * abs(num.real))):
+                        ctx.violation("C08/%s/heterogeneous-batch/%s" % (cname, "complex" if cplx else "real"), "%s(%g): in a batch whose members have amplitudes 1e4, 1, 0.1, 0.01, member %d (input power %.3g) comes out with %s power %.6g" % (
+                            cname, T, it, cin, "average" if per_sample else "total", cout), {"constraint": cname, "target": T, "shape": list(shape), "complex": cplx})
+                        break
         # all-zero items inside a batch and alone: the replacement has the target power
         for shape in ((8,), (1, 8), (3, 8)):
             for cplx in (False, True):
